@@ -364,6 +364,10 @@ static TxRec *on_event(Exec *ex, int hook, htp_tx_t *tx, bool eob_marker = false
         if (++r.n_complete[2] > 1) violate(ex, "C05", "C05.transaction_complete_twice", strfmt("tx#%d seq=%s", r.ordinal, r.cbseq_full.c_str()));
         if (rp != HTP_REQUEST_COMPLETE || sp != HTP_RESPONSE_COMPLETE)
             violate(ex, "C05", "C05.tx_complete_while_incomplete", strfmt("tx#%d req=%d res=%d", r.ordinal, rp, sp));
+        // "only when both sides are complete": each side's completion was *announced* before - the progress fields alone can
+        // be set without the side ever having completed (the completion callbacks are registered in every run)
+        if (r.n_complete[0] < 1 || r.n_complete[1] < 1)
+            violate(ex, "C05", r.n_complete[0] < 1 ? "C05.tx_complete_without_request_complete" : "C05.tx_complete_without_response_complete", strfmt("tx#%d seq=%s", r.ordinal, r.cbseq_full.c_str()));
     }
     return &r;
 }
@@ -718,6 +722,13 @@ static void per_call_invariants(Exec *ex, ConnState &c, int dir, const CallRec &
     }
     // ---- C10 (retention invariants)
     size_t hard = ex->cfg->field_limit_hard;
+    // "logging off": with the log level at NONE no record is kept on the connection (the list lives as long as the connection
+    // does, so anything kept there grows with the traffic), and with any level every kept record is at or below that level
+    if (cp->cfg && cp->conn && cp->conn->messages) {
+        size_t nm = htp_list_size(cp->conn->messages);
+        if (cp->cfg->log_level == HTP_LOG_NONE && nm > 0) violate(ex, "C10", "C10.log_record_kept_with_logging_off", strfmt("%zu records on the connection", nm));
+        else if (nm > 0) { htp_log_t *l = (htp_log_t *) htp_list_get(cp->conn->messages, nm - 1); if (l && ((int) l->level > (int) cp->cfg->log_level || (int) l->level <= 0)) violate(ex, "C10", "C10.log_record_outside_log_level", strfmt("level %d kept, configured level %d", (int) l->level, (int) cp->cfg->log_level)); }
+    }
     if (cp->in_buf_size > hard) violate(ex, "C10", "C10.in_buf_over_hard_limit", strfmt("in_buf_size=%zu hard=%zu", cp->in_buf_size, hard));
     if (cp->out_buf_size > hard) violate(ex, "C10", "C10.out_buf_over_hard_limit", strfmt("out_buf_size=%zu hard=%zu", cp->out_buf_size, hard));
     // while a line is being buffered, the pending (possibly folded) header it may belong to counts too: the check made at buffering
